@@ -96,7 +96,7 @@ fn run_case(cache: &mut SegCache, src: AsIdx, dst: AsIdx, inp: &Input, reference
     let paths = match vpc::catch(|| combine(s_ia, d_ia, cores, ncs)) {
         Ok(p) => p,
         Err(m) => {
-            out.violations.push((format!("panic@{}", vpc::last_panic_location()), format!("combine panicked on a consistent segment set: {m}")));
+            out.violations.push((util::panic_class(&vpc::last_panic_location(), &m), format!("combine panicked on a consistent segment set at {}: {m}", vpc::last_panic_location())));
             return out;
         }
     };
@@ -246,6 +246,12 @@ fn variants(cache: &SegCache, src: AsIdx, dst: AsIdx, full: bool) -> Vec<Input> 
         out.push(Input { tag: "core-segments-other-direction".into(), cores: crev.clone(), non_cores: n.clone() });
         out.push(Input { tag: "core-segments-both-directions".into(), cores: cat(&c, &crev), non_cores: n.clone() });
     }
+    // "any set of well-formed segments": every core segment of the topology, not only those between
+    // the two core sides of this lookup
+    let all_cores: Vec<SegRef> = (0..cache.segs.core.len()).map(|idx| SegRef { idx, dts: 0 }).collect();
+    if all_cores.len() > c.len() {
+        out.push(Input { tag: "all-core-segments-of-topology".into(), cores: all_cores, non_cores: n.clone() });
+    }
     out.push(Input { tag: "later-copy-of-all-after".into(), cores: cat(&c, &later(&c)), non_cores: cat(&n, &later(&n)) });
     out.push(Input { tag: "later-copy-of-all-before".into(), cores: cat(&later(&c), &c), non_cores: cat(&later(&n), &n) });
     if !full {
@@ -379,7 +385,7 @@ fn explore(run: &vpc::Run, topo: &Topo, topo_idx: usize, full_every: usize) -> T
                 } else if let Some(b) = &base_set {
                     // order / duplication independence: permutations and exact duplicates must not change
                     // anything; later copies change expiries only
-                    let same_multiset = inp.cores.iter().chain(inp.non_cores.iter()).all(|r| r.dts == 0) && !inp.tag.starts_with("core-segments");
+                    let same_multiset = inp.cores.iter().chain(inp.non_cores.iter()).all(|r| r.dts == 0) && !inp.tag.starts_with("core-segments") && !inp.tag.starts_with("all-core");
                     if same_multiset && *b != oc.real_set && viol.is_empty() {
                         viol.push(("result-depends-on-input-order-or-duplication".into(), format!("variant {} returns a different path set than the base order", inp.tag)));
                     }
@@ -393,7 +399,7 @@ fn explore(run: &vpc::Run, topo: &Topo, topo_idx: usize, full_every: usize) -> T
                     if !reported.insert(class.clone()) {
                         continue; // one witness per (topology, pair, class)
                     }
-                    let w = witness(topo, src, dst, inp, &mut cache);
+                    let w = if run.is_known(&class) { Value::Null } else { witness(topo, src, dst, inp, &mut cache) };
                     run.violation(&class, &format!("{} {}->{} [{}]: {}", topo.name, src, dst, inp.tag, what), w);
                 }
                 run.sample(4, || {
